@@ -17,6 +17,7 @@ import Kvass.Proofs.LoopRecover
 import Kvass.Proofs.LoopSettle
 import Kvass.Proofs.LoopSettle2
 import Kvass.Proofs.LoopPlace
+import Kvass.Proofs.LoopStay
 
 namespace Kvass.Props.C06
 open Kvass Kvass.Coord Kvass.Spec
@@ -349,6 +350,27 @@ theorem C06_repaired_state_converged (swr : Swr) (env : Loop.Env) (w : Loop.Worl
       ∃ (d : Nat) (shd : Loop.Shard), d < w.replicas ∧
         (Loop.step swr env w (.cycle sc [] false)).shards[d]? = some shd ∧ (Loop.statusOf shd).has h = true) :=
   Loop.loop_settles2_converged swr env w sc r
+
+/-- **C06 as stated, for a settled system: recovery within one cycle, and further cycles then change
+    nothing.**  From a settled state with any mixture of lost hand-overs, pending hand-overs and
+    normal-state duplicates, the state after one fault-free `Loop.step` is repaired
+    (`C06_repairs_all_in_one_cycle`, `C06_repaired_state_converged`); and if that state is calm and every
+    discovered target is held or unplaceable, any number of further fault-free cycles — each with an
+    arbitrary schedule — leave the StatefulSet's size, the discovered set and every sidecar's statuses
+    and idle time exactly as they are. -/
+theorem C06_recovers_and_stays (swr : Swr) (env : Loop.Env) (w : Loop.World) (sc : Sched)
+    (r : Loop.Settled2 swr env w)
+    (hidle : ∀ sh ∈ w.running, sh.sc.status = [] → sh.sc.idleAt.isSome = true)
+    (hcalm' : env.opt.disableAlleviate = true ∨
+      CalmSS swr env.opt (infos0 (Loop.inputOf env (Loop.step swr env w (.cycle sc [] false)) [] false)))
+    (hplaced' : ∀ h ∈ w.active,
+      (scrapingSetOf (infos0 (Loop.inputOf env (Loop.step swr env w (.cycle sc [] false)) [] false))).contains h = true ∨
+      Gen.assignSkip (globalOf (infos0 (Loop.inputOf env (Loop.step swr env w (.cycle sc [] false)) [] false)) w.explore h) = true ∨
+      Gen.tooBig env.opt (globalOf (infos0 (Loop.inputOf env (Loop.step swr env w (.cycle sc [] false)) [] false)) w.explore h) = true) :
+    ∀ scs : List Sched,
+      Loop.Unchanged (Loop.step swr env w (.cycle sc [] false))
+        (Loop.cycles swr env (Loop.step swr env w (.cycle sc [] false)) scs) :=
+  Loop.loop_recovers_and_stays swr env w sc r hidle hcalm' hplaced'
 
 /-- a cycle in which nothing has to move is exactly `gcTargets` (what the recovery theorem rests on) -/
 theorem C06_calm_cycle_is_gc (swr : Swr) (sc : Sched) (inp : Input) (q : Calm swr inp) :
